@@ -263,7 +263,7 @@ func runC02One(cs *vrt.Case) {
 			if r.Intn(5) == 0 {
 				kind = 3
 			}
-			opts := yaoOpts{ot: otk, kind: kind, stallWin: 30 * time.Second}
+			opts := yaoOpts{ot: otk, kind: kind, stallWin: 30 * time.Second, verbose: (cs.Idx+pi)%4 == 3}
 			dying := kind == 2 && r.Intn(12) == 0
 			if dying {
 				// the garbler's entropy source dies part-way: the session may
